@@ -435,6 +435,10 @@ def build_description(rng):
         units = [{"kind": "sequence_header", "fields": fields}]
         last_pn = -1
         profile = fields["parse_parameters.profile"]
+        # does the most recent sequence header carry an explicit major_version 3?  (then autofill must leave the
+        # transform parameters that follow exactly as given)
+        gov3 = explicit_version == 3
+        mixed_asym = False
         for i in range(npic):
             if default_pics:
                 if default_frags:
@@ -454,6 +458,14 @@ def build_description(rng):
                 g = [du]
             else:
                 g = copy.deepcopy(groups[i % len(groups)])
+                this_asym = False
+                if fam == "hq" and i >= 1 and explicit_version in (None, 3) and rng.random() < 0.2:
+                    # a later picture of the sequence uses an asymmetric transform although the first ones do not: the
+                    # whole sequence then needs version 3
+                    ag = _pools[rng.choice(sorted(n for n in _pools if n.startswith("asym")))][2]
+                    g = copy.deepcopy(ag[i % len(ag)])
+                    minv = 3
+                    mixed_asym = this_asym = True
                 for du in g:
                     # omit fragment header fields whose value is the documented default
                     fh = du.get("fragment_parse", {}).get("fragment_header")
@@ -462,6 +474,19 @@ def build_description(rng):
                             if fh.get(k) == 0 and rng.random() < 0.5:
                                 del fh[k]
                                 omitted_fragment_defaults = True
+                if gov3 and fam in ("hq", "ld") and not this_asym and rng.random() < 0.5:
+                    # explicit extended transform parameters that signal a symmetric transform the long way round (both
+                    # flags set, same wavelet, no horizontal-only level): nothing here needs version 3, and behind an
+                    # explicit version-3 header autofill must leave them alone
+                    for du in g:
+                        tpd = du["picture_parse"]["wavelet_transform"]["transform_parameters"]
+                        tpd["extended_transform_parameters"] = B.ExtendedTransformParameters(
+                            asym_transform_index_flag=True, wavelet_index_ho=tpd["wavelet_index"],
+                            asym_transform_flag=True, dwt_depth_ho=0)
+                        flagged_etp = {"asym_transform_index_flag": True, "wavelet_index_ho": int(tpd["wavelet_index"]),
+                                       "asym_transform_flag": True, "dwt_depth_ho": 0}
+                else:
+                    flagged_etp = None
             mode = rng.choice(["auto", "auto", "omit", "explicit"])
             if mode == "explicit":
                 pn = rng.choice([0, 5, 2 ** 32 - 1, 2 ** 32 - 2, rng.randrange(2 ** 32)])
@@ -491,6 +516,8 @@ def build_description(rng):
                 dus.append(du)
                 units.append({"kind": "fragment" if ("fragment_parse" in du or (default_pics and default_frags)) else "picture", "pn": pn,
                               "pn_mode": mode, "default": default_pics})
+                if not default_pics and flagged_etp:
+                    units[-1]["etp_expect"] = flagged_etp
                 if rng.random() < 0.25:
                     payload = _payload(rng)
                     omit_bytes = payload == b"" and rng.random() < 0.5
@@ -509,8 +536,23 @@ def build_description(rng):
             last_pn = pn
             if rng.random() < 0.15:
                 # the sequence header repeated between pictures: numbering and offsets carry on across it
-                dus.append(copy.deepcopy(hdr))
-                units.append({"kind": "sequence_header", "fields": fields})
+                h2 = copy.deepcopy(hdr)
+                u2 = {"kind": "sequence_header", "fields": fields}
+                p = rng.random()
+                if explicit_version is None and p < 0.4 and fam in ("hq", "ld", "hqf", "ldf") or fam.startswith("asym") and explicit_version is None and p < 0.4:
+                    # ... this time with an explicit version 3 although the first header left it to autofill
+                    h2["sequence_header"]["parse_parameters"]["major_version"] = 3
+                    u2["mv_explicit"] = 3
+                    gov3 = True
+                elif explicit_version == 3 and p < 0.2:
+                    # ... this time leaving the version to autofill although the first header was explicit
+                    h2["sequence_header"]["parse_parameters"]["major_version"] = AUTO
+                    u2["mv_explicit"] = None
+                    gov3 = False
+                else:
+                    gov3 = explicit_version == 3  # a plain copy of the first header
+                dus.append(h2)
+                units.append(u2)
         if rng.random() < 0.3:
             dus.append(copy.deepcopy(hdr))
             units.append({"kind": "sequence_header", "fields": fields})
@@ -630,9 +672,13 @@ def run_case(case, ctx):
             if kind == "sequence_header":
                 mv, _ = read_uint_at(data, (off + 13) * 8)
                 ctx.count("versions_checked:" + m["mv_mode"])
-                if mv != expect_version:
-                    if m["explicit_version"] is not None:
-                        ctx.violation("explicit-major-version-changed", "explicit major_version %d came out as %d" % (m["explicit_version"], mv))
+                want_mv = expect_version
+                if "mv_explicit" in u:
+                    want_mv = u["mv_explicit"] if u["mv_explicit"] is not None else m["min_version"]
+                    ctx.count("repeated_headers_with_their_own_version_mode")
+                if mv != want_mv:
+                    if ("mv_explicit" in u and u["mv_explicit"] is not None) or ("mv_explicit" not in u and m["explicit_version"] is not None):
+                        ctx.violation("explicit-major-version-changed", "explicit major_version %d came out as %d" % (want_mv, mv))
                     else:
                         ctx.violation("auto-major-version", "automatic major_version %d, features require %d (family %s, %d pictures, header replaced %s)"
                                       % (mv, m["min_version"], m["family"], m["npic"], m["replaced"]))
@@ -667,6 +713,13 @@ def run_case(case, ctx):
                                   % ", ".join("%s=%r (expected %r)" % (k2, got.get(k2), want.get(k2)) for k2 in diff[:6]),
                                   detail={"replaced": m["replaced"]})
                 ctx.count("header_fields_checked", len(want))
+            elif u["kind"] == "picture" and u.get("etp_expect"):
+                tp = du["picture_parse"]["wavelet_transform"]["transform_parameters"]
+                got = {k2: (bool(v) if k2.endswith("_flag") else int(v)) for k2, v in tp.get("extended_transform_parameters", {}).items()}
+                ctx.count("explicit_etp_checked")
+                if got != u["etp_expect"]:
+                    ctx.violation("explicit-extended-transform-parameters-changed",
+                                  "explicit extended transform parameters %r behind an explicit version-3 header came out as %r" % (u["etp_expect"], got))
             elif u["kind"] == "picture" and u.get("default"):
                 wt = du["picture_parse"]["wavelet_transform"]
                 tp = wt["transform_parameters"]
